@@ -60,7 +60,24 @@ Excluded_F_C04_2 == "F_C04_2" \in Excl
 \* receiver reached through a pointer variable follows later assignments to that variable.
 Excluded_F_C04_3 == "F_C04_3" \in Excl
 
-MaxLen == 4            \* slices never grow beyond 4 elements (bounds every growing value)
+MaxLen == 4            \* the single-value growth operations stop at 4 elements (bounds every growing value)
+MaxBig == 6            \* AppendN (several explicit values, unclipped) may reach this length
+MaxCap == 8            \* ... and this capacity
+
+(* Capacity of a reallocated slice.  The language leaves it to the implementation; what is  *)
+(* stated here is the rule of the Go runtime the interpreter is compared with (runtime        *)
+(* growslice + malloc size classes, go1.2x, 64-bit): the new length if it exceeds twice the   *)
+(* old capacity, else twice the old capacity (below 256 elements), rounded up to a malloc    *)
+(* size class.  The harness checks it against the native toolchain (a disagreement is a      *)
+(* SPEC-ERROR, never a violation).  Elements: int = 8 bytes, []int header = 24 bytes.        *)
+SizeClasses == <<8, 16, 24, 32, 48, 64, 80, 96, 112, 128, 144, 160, 176, 192, 208, 224, 240, 256,
+                 288, 320, 352, 384, 416, 448, 480, 512>>
+RoundUpSize(b) == SizeClasses[CHOOSE n \in 1..Len(SizeClasses) :
+                                 SizeClasses[n] >= b /\ (n = 1 \/ SizeClasses[n - 1] < b)]
+ESize(T) == IF T = "L" THEN 8 ELSE 24
+GrowCap(T, oldcap, newlen) ==
+    LET nc == IF newlen > 2 * oldcap THEN newlen ELSE 2 * oldcap
+    IN RoundUpSize(nc * ESize(T)) \div ESize(T)
 
 Vars == <<"a", "b", "s", "t", "l", "k", "ll", "as", "ms", "m", "p", "q", "ps", "i", "j", "f1", "f2", "e">>
 NVars == Len(Vars)
@@ -211,7 +228,7 @@ NewVal == 11 + Len(hist)
 (* harness reads them uniformly); Eff(op) is what the instance does: the new   *)
 (* store, the values the step reports (ext) and the copy/share claim (chk).    *)
 NoPl == [r |-> "", sel |-> <<>>]
-Op(kd) == [k |-> kd, d |-> NoPl, s |-> NoPl, v |-> 0, i |-> 0, j |-> 0, n |-> 0, x |-> ""]
+Op(kd) == [k |-> kd, d |-> NoPl, s |-> NoPl, v |-> 0, i |-> 0, j |-> 0, n |-> 0, x |-> "", ds |-> <<>>, ss |-> <<>>]
 Res(M2, T2, ext, c, op) == [mem |-> M2, mty |-> T2, ext |-> ext, chk |-> c, op |-> op]
 
 \* ev is the evaluation of every place expression in the current store, computed once
@@ -226,6 +243,12 @@ ChkMove(T, d, s, val) == [c |-> (IF T \in ValueTypes THEN "copy" ELSE "share"), 
 RECURSIVE Fold(_, _)
 Fold(r, q) == IF q = <<>> THEN r ELSE Fold(r * 3 + Head(q), Tail(q))
 FirstInt(T) == IF T = "AS" THEN <<1, 1>> ELSE <<1>>
+
+SameLoc(X, Y) == X.obj = Y.obj /\ X.path = Y.path
+TupleTypes == {"int", "A", "S", "L", "PI"}
+El(c, n) == [r |-> c.r, sel |-> Append(c.sel, n)]
+\* int places (of the family's place set) that denote the location of element n of the slice at place c
+AlLoc(ev, c, n) == {q \in Pl("int") : AddrE(ev, q) /\ ev[q].obj = ev[c].val.obj /\ ev[q].path = ElemPath(ev[c].val, n)}
 
 Inst(kd, ev) ==
   CASE kd = "AssignVar" ->
@@ -285,7 +308,7 @@ Inst(kd, ev) ==
                       /\ ev[q[1]].val.len >= 1 /\ ev[q[2]].val.len >= 1}}
     [] kd = "Slice2" ->
         {[Op(kd) EXCEPT !.d = pr[1], !.s = pr[2], !.i = pr[3], !.j = pr[4], !.x = "L"] :
-            pr \in {q \in Pl("L") \X Pl("L") \X (0..1) \X (0..MaxLen) : AddrE(ev, q[1]) /\ ev[q[2]].ok
+            pr \in {q \in Pl("L") \X Pl("L") \X (0..1) \X (0..MaxCap) : AddrE(ev, q[1]) /\ ev[q[2]].ok
                       /\ q[3] <= q[4] /\ q[4] <= ev[q[2]].val.cap}}
         \cup {[Op(kd) EXCEPT !.d = pr[1], !.s = pr[2], !.i = pr[3], !.j = pr[4], !.x = "A"] :
             pr \in {q \in Pl("L") \X Pl("A") \X (0..1) \X (0..2) : AddrE(ev, q[1]) /\ AddrE(ev, q[2]) /\ q[3] <= q[4]}}
@@ -360,6 +383,38 @@ Inst(kd, ev) ==
             pr \in {q \in Pl("F") \X Pl("S") : ev[q[2]].ok /\ (Excluded_F_C04_3 => ~ev[q[2]].addr)}}
         \cup {[Op(kd) EXCEPT !.d = pr[1], !.s = pr[2], !.x = "pinc"] :
             pr \in {q \in Pl("F") \X Pl("S") : AddrE(ev, q[2]) /\ (Excluded_F_C04_3 => ~HasDeref(q[2]))}}
+    [] kd = "AppendN" ->   \* D = append(S, v1, .., vk): several explicit values, result NOT clipped, D may differ from S
+        {[Op(kd) EXCEPT !.d = pr[1], !.s = pr[2], !.n = pr[3], !.v = NewVal, !.x = "L"] :
+            pr \in {q \in Pl("L") \X Pl("L") \X (1..4) : AddrE(ev, q[1]) /\ ev[q[2]].ok
+                      /\ ev[q[2]].val.len + q[3] <= MaxBig
+                      /\ (ev[q[2]].val.len + q[3] > ev[q[2]].val.cap =>
+                              GrowCap("L", ev[q[2]].val.cap, ev[q[2]].val.len + q[3]) <= MaxCap)}}
+        \cup {[Op(kd) EXCEPT !.d = pr[1], !.s = pr[2], !.ss = <<pr[3]>>, !.n = pr[4], !.x = "LL"] :
+            pr \in {q \in Pl("LL") \X Pl("LL") \X Pl("L") \X (1..4) : AddrE(ev, q[1]) /\ ev[q[2]].ok /\ ev[q[3]].ok
+                      /\ ev[q[2]].val.len + q[4] <= MaxBig
+                      /\ (ev[q[2]].val.len + q[4] > ev[q[2]].val.cap =>
+                              GrowCap("LL", ev[q[2]].val.cap, ev[q[2]].val.len + q[4]) <= MaxCap)}}
+    [] kd = "Tuple" ->
+        \* tuple assignments whose right-hand operands reach, through OTHER access paths (pointers,
+        \* shared or overlapping slices, pointer-to-struct fields), the storage the left-hand operands overwrite
+        LET AD(T) == {q \in Pl(T) : AddrE(ev, q)}
+            Al(T, d) == {q \in AD(T) : SameLoc(ev[q], ev[d])}
+        IN  \* D1, D2 = <alias of D2>, <alias of D1>
+            UNION {UNION {{[Op(kd) EXCEPT !.ds = <<dd[1], dd[2]>>, !.ss = <<sp[1], sp[2]>>, !.x = "swap2"] :
+                             sp \in {q \in Al(T, dd[2]) \X Al(T, dd[1]) : q[1] # dd[2] \/ q[2] # dd[1]}} :
+                          dd \in {q \in AD(T) \X AD(T) : ~SameLoc(ev[q[1]], ev[q[2]])}} : T \in TupleTypes}
+            \* D1, D2 = v, <alias of D1>
+            \cup UNION {{[Op(kd) EXCEPT !.ds = <<dd[1], dd[2]>>, !.ss = <<NoPl, s2>>, !.v = NewVal, !.x = "shift"] :
+                             s2 \in Al("int", dd[1]) \ {dd[1]}} :
+                          dd \in {q \in AD("int") \X AD("int") : ~SameLoc(ev[q[1]], ev[q[2]])}}
+            \* C[0], C[1], C[2] = <alias of C[1]>, <alias of C[2]>, <alias of C[0]>
+            \cup UNION {{[Op(kd) EXCEPT !.ds = <<El(c, 1), El(c, 2), El(c, 3)>>, !.ss = <<sp[1], sp[2], sp[3]>>, !.x = "rot3"] :
+                             sp \in {q \in AlLoc(ev, c, 2) \X AlLoc(ev, c, 3) \X AlLoc(ev, c, 1) :
+                                       q[1] # El(c, 2) \/ q[2] # El(c, 3) \/ q[3] # El(c, 1)}} :
+                          c \in {q \in Pl("L") : ev[q].ok /\ ev[q].val.len >= 3}}
+    [] kd = "MapTuple" ->   \* A["x"], A["y"] = B["y"], B["x"]  (B may be the same map through another path)
+        UNION {{[Op(kd) EXCEPT !.d = pr[1], !.s = pr[2], !.x = T] :
+                  pr \in {q \in Pl(T) \X Pl(T) : ev[q[1]].ok /\ ev[q[2]].ok /\ ev[q[1]].val.id # 0}} : T \in {"M", "MS"}}
     [] OTHER -> {}
 
 -------------------------------------------------------------------------------
@@ -373,6 +428,22 @@ AppendVals(M, T2, D, vs, aty, op) ==
     IF n <= sl.cap
     THEN Res(Put(WriteElems(M, sl, sl.len, vs), D, [sl EXCEPT !.len = n]), T2, <<>>, NoChk, op)
     ELSE Res(Put(Append(M, Elems(M, sl) \o vs), D, SL(NewId(M), <<>>, 0, n, n)), Append(T2, aty), <<>>, NoChk, op)
+
+\* D = append(S, vs...) unclipped: in place (into S's backing array, beyond its length) when the
+\* values fit, else a new array of capacity GrowCap, the spare elements zero
+AppendTo(M, T2, D, S, vs, T, op) ==
+    LET sl == S.val  n == sl.len + Len(vs) IN
+    IF n <= sl.cap
+    THEN Res(Put(WriteElems(M, sl, sl.len, vs), D, [sl EXCEPT !.len = n]), T2, <<>>, NoChk, op)
+    ELSE LET c == GrowCap(T, sl.cap, n) IN
+         Res(Put(Append(M, Elems(M, sl) \o vs \o [x \in 1..(c - n) |-> (IF T = "L" THEN 0 ELSE NilL)]), D,
+                 SL(NewId(M), <<>>, 0, n, c)),
+             Append(T2, IF T = "L" THEN "arrI" ELSE "arrL"), <<>>, NoChk, op)
+
+\* the two phases of an assignment: locs and vals were all determined first; the stores happen left to right
+RECURSIVE StoreAll(_, _, _)
+StoreAll(M, locs, vals) ==
+    IF locs = <<>> THEN M ELSE StoreAll(Put(M, Head(locs), Head(vals)), Tail(locs), Tail(vals))
 
 SetEntry(M, id, key, ent) == [M EXCEPT ![id] = [M[id] EXCEPT ![key] = ent]]
 
@@ -392,6 +463,17 @@ Eff(op, ev) ==
         ELSE Res(Put(M, D, S.val), mty, <<>>, ChkMove("S", op.d, op.s, S.val), op)
     [] kd \in {"SetField", "SetElem"} -> Res(Put(M, D, v), mty, <<>>, NoChk, op)
     [] kd = "SetLit" -> Res(Put(M, D, (IF op.x = "A" THEN <<v, v + 1>> ELSE [ZeroS EXCEPT ![1] = v, ![2] = <<v, 0>>])), mty, <<>>, NoChk, op)
+    [] kd = "AppendN" ->
+        IF op.x = "L" THEN AppendTo(M, mty, D, S, [x \in 1..op.n |-> v + x - 1], "L", op)
+        ELSE AppendTo(M, mty, D, S, [x \in 1..op.n |-> Rd(M, op.ss[1]).val], "LL", op)
+    [] kd = "Tuple" ->
+        Res(StoreAll(M, [x \in 1..Len(op.ds) |-> Rd(M, op.ds[x])],
+                        [x \in 1..Len(op.ss) |-> IF op.ss[x] = NoPl THEN v ELSE Rd(M, op.ss[x]).val]), mty, <<>>, NoChk, op)
+    [] kd = "MapTuple" ->
+        LET a == D.val.id  b == S.val.id
+            zero == IF op.x = "M" THEN 0 ELSE ZeroS
+            rdb(key) == IF b # 0 /\ M[b][key].p THEN M[b][key].v ELSE zero
+        IN Res(SetEntry(SetEntry(M, a, 1, EntS(TRUE, rdb(2))), a, 2, EntS(TRUE, rdb(1))), mty, <<>>, NoChk, op)
     [] kd = "SetMapEntry" ->
         LET mid == D.val.id IN
        (CASE op.x = "int" -> Res(SetEntry(M, mid, op.i, EntS(TRUE, v)), mty, <<>>, NoChk, op)
@@ -522,11 +604,13 @@ RangeArray(ev) == Act("RangeArray", ev)          RangeSlice(ev) == Act("RangeSli
 Capture(ev) == Act("Capture", ev)                CallFunc(ev) == Act("CallFunc", ev)
 Box(ev) == Act("Box", ev)                        Unbox(ev) == Act("Unbox", ev)
 BindMV(ev) == Act("BindMV", ev)
+AppendN(ev) == Act("AppendN", ev)         Tuple(ev) == Act("Tuple", ev)
+MapTuple(ev) == Act("MapTuple", ev)
 
 AllKinds == {"AssignVar", "Deref", "SetLit", "SetField", "SetElem", "SetThroughPtr", "SetMapEntry", "MapDelete", "MapLookup",
              "Append", "AppendLL", "AppendSlice", "DeleteIdx", "Copy", "Slice2", "Slice3", "Make", "AddrOf", "Swap",
              "IdxAssign", "RebindAssign", "PassByValue", "ReturnComposite", "RangeArray", "RangeSlice", "Capture",
-             "CallFunc", "Box", "Unbox", "BindMV"}
+             "CallFunc", "Box", "Unbox", "BindMV", "AppendN", "Tuple", "MapTuple"}
 
 Next ==
     /\ Len(hist) < MaxSteps
@@ -536,6 +620,7 @@ Next ==
         \/ CopyOp(ev) \/ Slice2(ev) \/ Slice3(ev) \/ Make(ev) \/ AddrOf(ev) \/ Swap(ev) \/ IdxAssign(ev)
         \/ RebindAssign(ev) \/ PassByValue(ev) \/ ReturnComposite(ev) \/ RangeArray(ev) \/ RangeSlice(ev)
         \/ Capture(ev) \/ CallFunc(ev) \/ Box(ev) \/ Unbox(ev) \/ BindMV(ev) \/ SetLit(ev)
+        \/ AppendN(ev) \/ Tuple(ev) \/ MapTuple(ev)
 
 \* simulation: the kind is drawn first, then the instance (TLC's uniform choice among
 \* successor STATES would be dominated by the kinds with many instances)
@@ -594,10 +679,9 @@ SlicesOf(v, T) ==
 \* heap well-formedness: a slice is a window inside its array
 WellFormed ==
     \A o \in 1..Len(mem) : \A sl \in SlicesOf(mem[o], mty[o]) :
-        sl.obj # 0 => /\ 0 <= sl.off /\ 0 <= sl.len /\ sl.len <= sl.cap /\ sl.cap <= MaxLen
+        sl.obj # 0 => /\ 0 <= sl.off /\ 0 <= sl.len /\ sl.len <= sl.cap /\ sl.cap <= MaxCap
                       /\ sl.off + sl.cap <= Len(ReadLoc(mem, sl.obj, sl.path))
 
-SameLoc(X, Y) == X.obj = Y.obj /\ X.path = Y.path
 FP(T) == IF T = "int" THEN <<>> ELSE FirstInt(T)
 \* after an array or struct has been assigned / returned / dereferenced into a place,
 \* destination and source are independent storage: the destination holds what the
